@@ -3,6 +3,8 @@ package eng
 // C12 - error replies keep their name and parameters end to end (engine e-pair).
 
 import (
+	"sync/atomic"
+	"sync"
 	"bytes"
 	"context"
 	"encoding/json"
@@ -315,6 +317,69 @@ func c12Hangup(r *fw.Run, p *Pair, k int) {
 	r.Count("replies_into_a_connection_the_client_had_closed", 1)
 }
 
+// c12Concurrent: eight clients on eight connections of one service, each calling 250 (thorough 2 500) times a method whose
+// handler sends an error reply with one of five names (each client follows its own sequence; with and without parameters): every Call must return
+// exactly its own name and parameters, whatever the other connections are sending at that moment (seeded change C12-P: a
+// process-wide cache of the last encoded error frame, read in two steps).
+func c12Concurrent(r *fw.Run, p *Pair) {
+	const clients = 8
+	n := r.Pick(250, 2500)
+	var wg sync.WaitGroup
+	var calls int64
+	for w := 0; w < clients; w++ {
+		wg.Add(1)
+		go func(w int) {
+			defer wg.Done()
+			ctx, cancel := context.WithTimeout(context.Background(), 120*time.Second)
+			defer cancel()
+			conn, err := varlink.NewConnection(ctx, p.Rig.Addr)
+			if err != nil {
+				r.Inconclusive("concurrent error replies: connect: %v", err)
+				return
+			}
+			defer conn.Close()
+			for k := 0; k < n; k++ {
+				// five names shared by all clients; a client repeats a name four times before it moves on, so the same name is
+				// often sent twice in a row process-wide while other connections send other names in between
+				name := fmt.Sprintf("org.example.conc.E%d", (w+k/4)%5)
+				par := ""
+				if k%4 == 3 {
+					par = fmt.Sprintf(`{"who":%d,"k":%d}`, w, k)
+				}
+				cs := &CallScript{ID: fmt.Sprintf("cc%d.%d", w, k), Steps: []Step{{Op: "error", Name: name, NoPar: par == "", Raw: json.RawMessage(par)}}}
+				var out json.RawMessage
+				err := conn.Call(ctx, "org.example.script.Fail", cs, &out)
+				atomic.AddInt64(&calls, 1)
+				e, ok := err.(*varlink.Error)
+				cse := map[string]interface{}{"what": "concurrent error replies", "client": w, "call": k, "name": name, "params": par}
+				if !ok {
+					r.Violation("C12 wrong-error-type", fmt.Sprintf("client %d of %d concurrent ones, call %d: handler sent error %q, Call returned %T %v", w, clients, k, name, err, err), cse)
+					return
+				}
+				if e.Name != name {
+					r.Violation("C12 error-name-changed", fmt.Sprintf("client %d of %d concurrent ones, call %d: handler sent error %q, the client got %q", w, clients, k, name, e.Name), cse)
+					return
+				}
+				rp, _ := e.Parameters.(*json.RawMessage)
+				if par == "" {
+					if rp != nil && len(bytes.TrimSpace(*rp)) > 0 && string(bytes.TrimSpace(*rp)) != "null" {
+						r.Violation("C12 error-parameters-appeared", fmt.Sprintf("client %d, call %d: error %q sent without parameters, the client got %s", w, k, name, clip(string(*rp), 200)), cse)
+						return
+					}
+				} else if rp == nil || jEqual([]byte(par), *rp) != "" {
+					r.Violation("C12 error-parameters-changed", fmt.Sprintf("client %d, call %d: error %q sent with %s, the client got %v", w, k, name, par, rp), cse)
+					return
+				}
+			}
+		}(w)
+	}
+	wg.Wait()
+	p.Rig.WaitIdle(20 * time.Second)
+	p.Rig.Log.Take()
+	r.Count("concurrent_error_replies", calls)
+	r.Case(fw.Hash("concurrent-errors"), true)
+}
+
 func runC12(r *fw.Run) {
 	rng := rand.New(rand.NewSource(r.Seed*23 + 12))
 	jg := &JGen{R: rng}
@@ -391,6 +456,9 @@ func runC12(r *fw.Run) {
 		if k%150 == 0 {
 			r.Sample(c)
 		}
+	}
+	if r.ViolationCount() <= 12 {
+		c12Concurrent(r, pairs[0])
 	}
 	for _, p := range pairs {
 		if _, ok := p.Close(); !ok {
